@@ -21,6 +21,19 @@ CLAIMS = {
         note=COMMON_NOTE + 'Partial: the whole-program simulation theorem is not proved yet; arithmetic outside the modelled range (libm, rgb, ints beyond 2^53 with floats) is skipped and counted; device layer = repository fakes.',
         technique='Coq reference semantics + machine/compiler models; lemmas by induction; oracle and correspondence by vm_compute evaluation of generated cases',
         design='DESIGN.md 7 C01'),
+    'C05': dict(
+        text=('A static checker of loaded images (labels every position with loop depth and pending call contexts; jumps stay in their '
+              'segment and preserve the label; LOOP/END_LOOP and CTX/JSR bracket; every JSR names a built-in or a routine whose body is a '
+              'checked segment; routine bodies end at (0,0); nothing writes the pc) is proved sound for the machine model: every state '
+              'reachable on a checked image, on every path whatever the data, has its pc inside the program and inside the segment of '
+              'the routine in progress, and a frame stack of exactly the prescribed shape (induction over reachability through a control '
+              'abstraction proved to cover all 32 op codes). The checker is evaluated in Coq on the image the REAL compiler and loader '
+              'produce for every generated script (translation validation, including routines defined inside branches and loops). '
+              'Loader theorems: the image is jump + routine blocks + all other instructions in order; the distance the code generator '
+              'counts with equals the distance in the loaded main segment.'),
+        note=COMMON_NOTE + 'The soundness theorem is about the machine model (tied to Machine.run by correspondence C on every run); that the compiler only produces checked images is established per generated script by running the checker, not by a theorem over all scripts.',
+        technique='Coq-verified checker (soundness by induction over reachable states) + translation validation of real images',
+        design='DESIGN.md 7 C05'),
     'C11': dict(
         text=('Theorems over all texts (any length) and all lists of alternatives: accepted text => match table equals what the text '
               'denotes; accepted => matches some time; rejected <=> malformed or denotes nothing; `or` = union of denoted minute sets. '
